@@ -209,7 +209,7 @@ const rule = "non-trivial = a genum case with at least one option away from its 
 func main() {
 	hdir := flag.String("harness-dir", "", "directory holding the harness go.work (default: cwd or <exe>/../harness)")
 	f := hx.ParseFlags()
-	if f.Prop != "C13" {
+	if f.Prop != "C13" && f.Prop != "C14" {
 		fmt.Fprintln(os.Stderr, "h-gensweep: unknown property", f.Prop)
 		os.Exit(2)
 	}
@@ -222,6 +222,11 @@ func main() {
 		os.Exit(3)
 	}
 	defer w.close()
+	if f.Prop == "C14" {
+		run14(f, w)
+		w.close()
+		return
+	}
 	m := &impl{w: w}
 	r := hx.NewRunner(f, "h-gensweep", m, rule)
 	r.KeyOf = keyOf
